@@ -352,7 +352,8 @@ Inductive op :=
   | OMove (s : Z) (uidc : bool) (set : list sset_elt) (dst : string)
   | ODeliver (m : string) (n : Z) (unseen : bool) (cid0 date : Z)   (* an MH agent adds n messages *)
   | OPoll                                                           (* the management tasks' periodic resync *)
-  | OMkbox (m : string).                                            (* CREATE of a new top-level mailbox *)
+  | OMkbox (m : string)                                             (* CREATE of a new top-level mailbox *)
+  | ORestart.                                                       (* orderly shutdown and restart: every session is gone *)
 
 Definition in_mbox (w : world) (s : Z) (k : string -> mbox -> world * out) : world * out :=
   match sel w s with
@@ -410,6 +411,9 @@ Definition copy_into (w : world) (srcb : mbox) (sel : list Z) (dn : string) : op
 
 Definition step (w : world) (o : op) : world * out :=
   match o with
+  | ORestart =>
+      ({| w_boxes := map (fun nb => (fst nb, set_clients (snd nb) [])) (w_boxes w); w_vv := w_vv w;
+          w_pack_size := w_pack_size w; w_pack_num := w_pack_num w; w_pack_den := w_pack_den w |}, [])
   | OMkbox m =>
       match get_box w m with
       | Some _ => (w, [])
